@@ -2,7 +2,7 @@
 
 from __future__ import annotations
 
-from typing import TYPE_CHECKING, Generic, TypeVar
+from typing import TYPE_CHECKING, Any, Generic, TypeVar
 
 from quansino.moves.composite import CompositeMove
 from quansino.moves.core import BaseMove
@@ -120,3 +120,17 @@ class CellMove(
             The default operation for the move.
         """
         return IsotropicDeformation(0.05)
+
+    def to_dict(self) -> dict[str, Any]:
+        """
+        Convert the `CellMove` object to a dictionary.
+
+        Returns
+        -------
+        dict[str, Any]
+            A dictionary representation of the `CellMove` object.
+        """
+        dictionary = super().to_dict()
+        dictionary.setdefault("kwargs", {})["scale_atoms"] = self.scale_atoms
+
+        return dictionary
